@@ -21,6 +21,9 @@ CORPUS = [
     ('!a', '{"a":"x"}', False),                                 # ! on non-booleans
     ('!5', '{}', False),
     ('a.json()[*] == 2', '{"a":"[1,2]"}', True),                # json() any-match
+    ('a.contains("a")', '{}', False),                            # helpers on a missing subject
+    ('a.startsWith("")', '{}', False),
+    ('a.b.endsWith("e")', '{"a":1}', False),
     ('9007199254740993 == a', '{"a":9007199254740992}', True),  # both are the same float64
     ('a == 0', '{"a":-0.0}', True),
     ('(a == nil) or true', '{}', True),
